@@ -307,12 +307,12 @@ func c12Check(c c12Case) vfResult {
 func TestVerif_C12(t *testing.T) {
 	defer vfStats.dump()
 	if vfOnlySub("html") {
-		vfRun(t, vfSub[c12Case]{Prop: "C12", Name: "html", Checks: vfN(60000, 3000000), Gen: c12GenHTML, Check: c12Check})
+		vfRun(t, vfSub[c12Case]{Prop: "C12", Name: "html", Checks: vfN(60000, 12000000), Gen: c12GenHTML, Check: c12Check})
 	}
 	if t.Failed() {
 		return
 	}
 	if vfOnlySub("xml") {
-		vfRun(t, vfSub[c12Case]{Prop: "C12", Name: "xml", Checks: vfN(60000, 3000000), Gen: c12GenXML, Check: c12Check})
+		vfRun(t, vfSub[c12Case]{Prop: "C12", Name: "xml", Checks: vfN(60000, 12000000), Gen: c12GenXML, Check: c12Check})
 	}
 }
